@@ -22,8 +22,8 @@ CLAIMED += [
      "note": COMMON_NOTE + "Codecs and CityHash128 are Section variables (codec round trip is the one hypothesis, used by the round-trip theorems only); when the model is run they are oracle tables recorded from the real libraries. Three reader defects repaired in /repo. Client path and multi-MiB payloads: direct oracle only.",
      "technique": "Coq proof (invariant + measure induction over the Reader state machine, declarative verified_frame/frames_in spec) + extracted-model correspondence with hash/codec oracle tables + provenance oracle in Go"},
     {"id": "C14",
-     "text": "For every sequence of ChainBuffer callbacks (append, rewrite or shrink of the uncut tail), zero-copy ChainWrite, caller overwrites and flushes to accepting / failing / short-writing sinks, under every reallocation behaviour of append, each Flush delivers a prefix (complete iff the sink accepts) of the concatenation in call order of everything appended or chained since the previous flush; after a flush, successful or failed, the writer is empty and nothing earlier is written again; cut slices are capacity-limited and never overwritten (9 theorems, closed). Columns and blocks written through WriteColumn/WriteBlock give the same bytes as EncodeColumn/EncodeBlock (direct oracle on the implementation).",
-     "note": COMMON_NOTE + "Writer half: theorems over an explicit heap/slice model of proto/writer.go plus net.Buffers.WriteTo for a non-vectored writer. Column/block path equivalence: direct oracle on ~80 real column kinds x 10 row counts and 600 blocks per quick run (operation-level theorem chained_encoding_eq_buffer_encoding_partial only). Assumes the ChainBuffer contract and no aliasing of chained slices with the staging buffer.",
+     "text": "For every sequence of ChainBuffer callbacks (append, rewrite or shrink of the uncut tail), zero-copy ChainWrite, caller overwrites and flushes to accepting / failing / short-writing sinks, under every reallocation behaviour of append, each Flush delivers a prefix (complete iff the sink accepts) of the concatenation in call order of everything appended or chained since the previous flush; after a flush, successful or failed, the writer is empty and nothing earlier is written again; cut slices are capacity-limited and never overwritten; for every type tree and contents the pieces WriteColumn / WriteBlock issue carry exactly the bytes of EncodeColumn / EncodeBlock (11 theorems, closed), re-checked on real columns and blocks by a direct oracle.",
+     "note": COMMON_NOTE + "Writer half: theorems over an explicit heap/slice model of proto/writer.go plus net.Buffers.WriteTo for a non-vectored writer. Column/block path equivalence: theorems write_column_eq / write_block_eq over model/Send.v (pieces = bytes) composed with the operation-level flush theorem, plus a direct oracle on ~80 real column kinds x 10 row counts and 600 blocks per quick run. Assumes the ChainBuffer contract and no aliasing of chained slices with the staging buffer.",
      "technique": "Coq proof (refinement of a memory-free concatenation spec by a heap-and-slices model, invariants W1-W3, all histories / reallocation oracles / sinks) + extracted-model correspondence + direct oracle"},
     {"id": "C19",
      "text": "ColAuto.Infer never panics on any byte string; whenever it creates a column, that column's Type() does not conflict with the requested type (either order) and a second block of the same type is accepted; ColumnType.Conflicts is total, reflexive, symmetric, honours enum/integer, decimal-by-precision, DecimalN(S), comma-spacing, time-zone and element-wise Array/Nullable/LowCardinality equivalences and reports other different bases as conflicting (22 theorems, closed).",
